@@ -218,4 +218,99 @@ Proof.
   intro E. destruct iter_kmers_spec as [ks' [E' [_ D]]]. rewrite E in E'. injection E' as <-.
   rewrite <- (map_length (decode K)), D. unfold kmers. now rewrite map_length, seq_length.
 Qed.
+(* ---- KmerExtsIter: each k-mer with its true flanking bases; the caller's extensions only at the two ends *)
+Variable exts : N.
+Hypothesis Hexts : exts < 256.
+
+(* what item i must be: the k-mer at i, the set of left extensions, the set of right extensions *)
+Definition kmer_exts_item (i : nat) : dna * list N * list N :=
+  (kmer_at K l i,
+   if Nat.eqb i 0 then exts_left exts else [nth (i - 1) l 0],
+   if Nat.eqb i (len - K) then exts_right exts else [nth (i + K) l 0]).
+Definition item_view (it : N * N) : dna * list N * list N :=
+  (decode K (fst it), exts_left (snd it), exts_right (snd it)).
+Definition item_wf (it : N * N) : Prop := wf K (fst it) /\ snd it < 256.
+
+Lemma mk_left_spec b : b < 4 -> exists e, e_mk_left b = Some e /\ e < 256 /\ exts_left e = [b].
+Proof.
+  intro Hb.
+  assert (E : forallb (fun b => match e_mk_left b with Some e => (e <? 256) && nlist_eqb (exts_left e) [b] | None => false end) bases4 = true)
+    by (vm_compute; reflexivity).
+  rewrite forallb_forall in E. specialize (E b (in_bases4 b Hb)). destruct (e_mk_left b) as [e|]; [|discriminate].
+  apply andb_prop in E as [E1 E2]. exists e. split; [reflexivity|]. split; [now apply N.ltb_lt | now apply nlist_eqb_eq].
+Qed.
+Lemma mk_right_spec b : b < 4 -> exists e, e_mk_right b = Some e /\ e < 256 /\ exts_right e = [b].
+Proof.
+  intro Hb.
+  assert (E : forallb (fun b => match e_mk_right b with Some e => (e <? 256) && nlist_eqb (exts_right e) [b] | None => false end) bases4 = true)
+    by (vm_compute; reflexivity).
+  rewrite forallb_forall in E. specialize (E b (in_bases4 b Hb)). destruct (e_mk_right b) as [e|]; [|discriminate].
+  apply andb_prop in E as [E1 E2]. exists e. split; [reflexivity|]. split; [now apply N.ltb_lt | now apply nlist_eqb_eq].
+Qed.
+
+Lemma cur_left_spec pos : (K <= pos)%nat -> (pos <= len)%nat ->
+  exists el, (if Nat.eqb pos K then Some exts else do i <- subn pos (K + 1); do b <- cget i; e_mk_left b) = Some el /\
+             el < 256 /\ exts_left el = (if Nat.eqb (pos - K) 0 then exts_left exts else [nth (pos - K - 1) l 0]).
+Proof.
+  pose proof (eq_refl : len = length l) as Hlen.
+  intros H1 H2. destruct (Nat.eqb_spec pos K) as [->|Hne].
+  - exists exts. rewrite Nat.sub_diag. cbn [Nat.eqb]. auto.
+  - destruct (Nat.eqb_spec (pos - K) 0) as [?|_]; [lia|].
+    unfold subn. destruct (Nat.leb_spec (K + 1) pos) as [_|?]; [|lia]. cbn [obind].
+    rewrite Hget by lia. cbn [obind].
+    destruct (mk_left_spec (nth (pos - (K + 1)) l 0)) as [e [E [W D]]]; [apply nth_lt4; lia|].
+    exists e. split; [exact E|]. split; [exact W|]. rewrite D. do 2 f_equal. lia.
+Qed.
+
+Lemma kmer_exts_loop_spec : forall fuel kmer pos, wf K kmer -> (K <= pos)%nat -> (pos <= len)%nat ->
+  decode K kmer = kmer_at K l (pos - K) -> (len - pos < fuel)%nat ->
+  exists items, kmer_exts_loop c len cget fuel exts kmer pos = Some items /\ Forall item_wf items /\
+                map item_view items = map kmer_exts_item (seq (pos - K) (len + 1 - pos)).
+Proof.
+  pose proof Kpos as HK. pose proof (eq_refl : len = length l) as Hlen.
+  induction fuel as [|fuel IH]; intros kmer pos Hwf HKp Hpl Hd Hf; [lia|].
+  cbn [kmer_exts_loop]. destruct (Nat.leb_spec pos len) as [_|?]; [|lia]. fold K.
+  destruct (cur_left_spec pos HKp Hpl) as [el [El [Wl Dl]]].
+  destruct (Nat.ltb_spec pos len) as [Hlt|Hge].
+  - rewrite Hget by lia. cbn [obind]. rewrite El. cbn [obind].
+    destruct (mk_right_spec (nth pos l 0) (nth_lt4 pos Hlt)) as [er [Er [Wr Dr]]]. rewrite Er. cbn [obind].
+    destruct (extend_right_spec c kmer (nth pos l 0) Hc Hwf (nth_lt4 pos Hlt)) as [kmer' [E [W D]]].
+    rewrite E. cbn [obind]. fold K in D.
+    assert (D' : decode K kmer' = kmer_at K l (S pos - K)).
+    { rewrite D, Hd. replace (nth pos l 0) with (nth (pos - K + K) l 0) by (f_equal; lia).
+      replace (S pos - K)%nat with (S (pos - K)) by lia. apply kmer_at_shift; [exact HK | lia]. }
+    destruct (IH kmer' (S pos) W ltac:(lia) ltac:(lia) D' ltac:(lia)) as [items [Ek [Wk Dk]]].
+    rewrite Ek. cbn [obind]. eexists. split; [reflexivity|].
+    destruct (ExtsProofs.merge_spec el er Wl Wr) as [M1 [M2 M3]].
+    split; [constructor; [split; [exact Hwf | exact M3] | exact Wk]|].
+    cbn [map]. rewrite Dk. replace (len + 1 - pos)%nat with (S (len + 1 - S pos)) by lia. cbn [seq map].
+    replace (S pos - K)%nat with (S (pos - K)) by lia. f_equal.
+    unfold item_view, kmer_exts_item. cbn [fst snd]. rewrite Hd, M1, M2, Dl, Dr.
+    destruct (Nat.eqb_spec (pos - K) (len - K)) as [?|_]; [lia|]. do 3 f_equal. lia.
+  - assert (pos = len) by lia. subst pos. cbn [obind]. rewrite El. cbn [obind].
+    destruct (extend_right_spec c kmer 0 Hc Hwf ltac:(lia)) as [kmer' [E [W D]]]. rewrite E. cbn [obind].
+    assert (Er : kmer_exts_loop c len cget fuel exts kmer' (S len) = Some []).
+    { destruct fuel; cbn [kmer_exts_loop]; [reflexivity|]. destruct (Nat.leb_spec (S len) len); [lia | reflexivity]. }
+    rewrite Er. cbn [obind]. eexists. split; [reflexivity|].
+    destruct (ExtsProofs.merge_spec el exts Wl Hexts) as [M1 [M2 M3]].
+    split; [constructor; [split; [exact Hwf | exact M3] | constructor]|].
+    cbn [map]. replace (len + 1 - len)%nat with 1%nat by lia. cbn [seq map]. f_equal.
+    unfold item_view, kmer_exts_item. cbn [fst snd]. rewrite Hd, M1, M2, Dl. now rewrite Nat.eqb_refl.
+Qed.
+
+(* max(0, n-K+1) items; item i = (k-mer at i, left = caller's at i = 0 else {l[i-1]}, right = caller's at the last
+   item else {l[i+K]}) *)
+Theorem iter_kmer_exts_spec :
+  exists items, iter_kmer_exts c len cget cget_kmer exts = Some items /\ Forall item_wf items /\
+                map item_view items = map kmer_exts_item (seq 0 (len + 1 - K)).
+Proof.
+  unfold iter_kmer_exts. fold K. destruct (Nat.leb_spec K len) as [Hle|Hgt].
+  - destruct (first_kmer_spec Hle) as [k0 [E [W D]]]. rewrite E. cbn [obind].
+    destruct (kmer_exts_loop_spec (S len) k0 K W ltac:(lia) Hle) as [ks [Ek [Wk Dk]]]; [now rewrite Nat.sub_diag | lia |].
+    exists ks. split; [exact Ek|]. split; [exact Wk|]. rewrite Dk, Nat.sub_diag. reflexivity.
+  - cbn [obind kmer_exts_loop]. destruct (Nat.leb_spec K len) as [?|_]; [lia|].
+    exists []. split; [reflexivity|]. split; [constructor|].
+    replace (len + 1 - K)%nat with 0%nat by lia. reflexivity.
+Qed.
 End ContainerSpec.
+
